@@ -541,13 +541,19 @@ func isOpChar
   option pure
   ensures result <==> c == 61 || c == 62 || c == 60 || c == 33
 
+func toLower
+  props C17
+  option pure
+  ensures result == ite(c >= 65 && c <= 90, c + 32, c)
+
 func hasWordAt
   props C17
   option safety
   option pure
   requires i >= 0
   ensures a-word-fits: result ==> i + len(word) <= len(s)
-  loop 1 invariant 0 <= j && j <= len(word) && i + len(word) <= len(s)
+  ensures case-insensitive-match-at-i: result <==> i + len(word) <= len(s) && forall(k, 0, len(word), toLower(s[i + k]) == word[k])
+  loop 1 invariant 0 <= j && j <= len(word) && i + len(word) <= len(s) && forall(k, 0, j, toLower(s[i + k]) == word[k])
   loop 1 decreases len(word) - j
 
 func normalizeTriggerPredicate
